@@ -1,7 +1,8 @@
 (* C15 command table: a stateful world; every command answers with the canonical state of the whole world.
    reset | create L | adduid K ISUID CID INFO PRIM T | recert K ISUID CID INFO PRIM T | certify BY K ISUID CID EXP T | certkey BY K EXP T
-   | revuid K ISUID CID T | addsub K L CANSIGN FLAGS T | revsub K L T | revkey K T | revoker K BY T | deluid K CID
-   | protect K | unlock K | lock K | copy K | reimport K | publish K | state | old <command ...> (pre-repair step)
+   | revuid K ISUID CID T | attest K ISUID CID T | addsub K L CANSIGN FLAGS T | revsub K L T | revkey K T | revoker K BY T | deluid K CID
+   | protect K | unlock K | lock K | copy K | reimport K | publish K | state | old <command ...> (step before repair d951222)
+   | state_old (the current world read through the PGPUID.selfsig rule before repair 812bc0f: newest signature of any type by the key)
    INFO = comma separated integers ("-" = empty), EXP = n|0|1 *)
 let zi s = z_of_int (int_of_string s)
 let ni s = nat_of_int (int_of_string s)
@@ -15,15 +16,16 @@ let core_s c = String.concat "/" [zs c.c_type; zs c.c_issuer; zs c.c_created; ex
 let item_s = function Top s -> "T" ^ core_s s.s_core | Emb c -> "E" ^ core_s c
 let items_s l = String.concat "," (List.map item_s l)
 let cont_s c = match c with x :: _ -> zs x | [] -> "?"
+let old_rule = ref false
 let uid_s k u =
-  let eff = match effective k u with
+  let eff = match (if !old_rule then effective_old k u else effective k u) with
     | Some ((ty, info), prim) -> zs ty ^ "/" ^ info_s info ^ "/" ^ bool_s prim
     | None -> "none" in
   bool_s u.u_isuid ^ "." ^ cont_s u.u_content ^ "[" ^ String.concat "," (List.map (fun s -> core_s s.s_core) u.u_sigs) ^ "]=" ^ eff
   ^ "r" ^ string_of_int (List.length (uid_revocations k u))
 let sub_s k sk = zs sk.sk_label ^ "." ^ bool_s sk.sk_public ^ "[" ^ items_s sk.sk_sigs ^ "]r" ^ string_of_int (List.length (sub_revocations k sk))
 let key_s k = "K" ^ zs k.p_label ^ "." ^ bool_s k.p_public ^ "(" ^ items_s k.p_sigs ^ ")(" ^ String.concat ";" (List.map (uid_s k) k.p_uids)
-              ^ ")(" ^ String.concat ";" (List.map (sub_s k) k.p_subs) ^ ")x" ^ zs (key_expiry k) ^ "r" ^ string_of_int (List.length (key_revocations k))
+              ^ ")(" ^ String.concat ";" (List.map (sub_s k) k.p_subs) ^ ")x" ^ zs (if !old_rule then key_expiry_old k else key_expiry k) ^ "r" ^ string_of_int (List.length (key_revocations k))
 let obj_s o =
   let k = o.o_key in
   key_s k ^ "L" ^ zs o.o_lock ^ "I" ^ bool_s (inv_key k) ^ bool_s (sorted_key k) ^ bool_s (good_key k) ^ "|" ^ (if k.p_public then "-" else key_s (pubkey_of k))
@@ -36,6 +38,7 @@ let op_of = function
   | ["certify"; b; k; isu; c; e; t] -> OCertify (ni b, ni k, bo isu, [zi c], exp_of e, zi t)
   | ["certkey"; b; k; e; t] -> OCertifyKey (ni b, ni k, exp_of e, zi t)
   | ["revuid"; k; isu; c; t] -> ORevokeUid (ni k, bo isu, [zi c], zi t)
+  | ["attest"; k; isu; c; t] -> OAttest (ni k, bo isu, [zi c], zi t)
   | ["addsub"; k; l; cs; fl; t] -> OAddSubkey (ni k, zi l, bo cs, zi fl, zi t)
   | ["revsub"; k; l; t] -> ORevokeSubkey (ni k, zi l, zi t)
   | ["revkey"; k; t] -> ORevokeKey (ni k, zi t)
@@ -52,9 +55,10 @@ let step args = w := apply !w (op_of args); world_s !w
 let () = run_table [
   "reset", (fun _ -> w := []; "ok");
   "state", (fun _ -> world_s !w);
+  "state_old", (fun _ -> old_rule := true; let r = (try world_s !w with e -> old_rule := false; raise e) in old_rule := false; r);
   "old", (fun args -> w := apply_prefix !w (op_of args); world_s !w);
   "create", (fun a -> step ("create" :: a)); "adduid", (fun a -> step ("adduid" :: a)); "recert", (fun a -> step ("recert" :: a));
-  "certify", (fun a -> step ("certify" :: a)); "certkey", (fun a -> step ("certkey" :: a)); "revuid", (fun a -> step ("revuid" :: a)); "addsub", (fun a -> step ("addsub" :: a));
+  "certify", (fun a -> step ("certify" :: a)); "certkey", (fun a -> step ("certkey" :: a)); "revuid", (fun a -> step ("revuid" :: a)); "attest", (fun a -> step ("attest" :: a)); "addsub", (fun a -> step ("addsub" :: a));
   "revsub", (fun a -> step ("revsub" :: a)); "revkey", (fun a -> step ("revkey" :: a)); "revoker", (fun a -> step ("revoker" :: a));
   "deluid", (fun a -> step ("deluid" :: a)); "protect", (fun a -> step ("protect" :: a)); "unlock", (fun a -> step ("unlock" :: a));
   "lock", (fun a -> step ("lock" :: a)); "copy", (fun a -> step ("copy" :: a)); "reimport", (fun a -> step ("reimport" :: a));
